@@ -463,6 +463,9 @@ class CircuitTemplate(AbstractBaseTemplate):
         adaptive_steps = is_integration_adaptive(solver, **kwargs)
         net = self if in_place else deepcopy(self)
         if inputs:
+            # the labels of input nodes only have to be unique within this circuit (not among all models of the process)
+            input_labels.clear()
+            input_labels.update({key: 0 for key in net.nodes})
             for target, in_array in inputs.items():
                 net = net._add_input(target, in_array, adaptive_steps, simulation_time, vectorize)
 
@@ -616,6 +619,9 @@ class CircuitTemplate(AbstractBaseTemplate):
             adaptive_steps = is_integration_adaptive(kwargs.pop('solver', 'euler'), **kwargs)
         net = self if in_place else deepcopy(self)
         if inputs:
+            # the labels of input nodes only have to be unique within this circuit (not among all models of the process)
+            input_labels.clear()
+            input_labels.update({key: 0 for key in net.nodes})
             for target, in_array in inputs.items():
                 net = net._add_input(target, in_array, adaptive_steps, in_array.shape[0] * step_size, vectorize)
 
@@ -711,6 +717,9 @@ class CircuitTemplate(AbstractBaseTemplate):
             adaptive_steps = is_integration_adaptive(kwargs.pop('solver', 'euler'), **kwargs)
         net = self if in_place else deepcopy(self)
         if inputs:
+            # the labels of input nodes only have to be unique within this circuit (not among all models of the process)
+            input_labels.clear()
+            input_labels.update({key: 0 for key in net.nodes})
             for target, in_array in inputs.items():
                 net = net._add_input(target, in_array, adaptive_steps, in_array.shape[0] * step_size, vectorize)
 
